@@ -26,3 +26,23 @@ Definition fclose (tol a b : float) : bool :=
   PrimFloat.leb (PrimFloat.abs (PrimFloat.sub a b)) (PrimFloat.mul tol (PrimFloat.add 1%float (PrimFloat.abs b))).
 Fixpoint listF_close (tol : float) (a b : list float) : bool :=
   match a, b with [] , [] => true | x :: s, y :: t => fclose tol x y && listF_close tol s t | _, _ => false end.
+
+(* dict comparisons for the resampling / heap correspondences *)
+Fixpoint vs_eqb (a b : list (Z * (Q * Q))) : bool :=
+  match a, b with
+  | [], [] => true
+  | (k, (x, y)) :: s, (k', (x', y')) :: t => Z.eqb k k' && Qeq_bool x x' && Qeq_bool y y' && vs_eqb s t
+  | _, _ => false
+  end.
+Fixpoint es_eqb (a b : list (Z * (Z * Z))) : bool :=
+  match a, b with
+  | [], [] => true
+  | (k, (x, y)) :: s, (k', (x', y')) :: t => Z.eqb k k' && Z.eqb x x' && Z.eqb y y' && es_eqb s t
+  | _, _ => false
+  end.
+Fixpoint cs_eqb (a b : list (Z * list Z)) : bool :=
+  match a, b with
+  | [], [] => true
+  | (k, l) :: s, (k', l') :: t => Z.eqb k k' && listZ_eqb l l' && cs_eqb s t
+  | _, _ => false
+  end.
